@@ -161,6 +161,14 @@ class VN:
         self.loop_hook = loop_hook
 
     # ------------------------------------------------------------------ names
+    def is_xp(self, head):
+        """`head` names the array module in the function being numbered (decided from bindings by the model)"""
+        if head in ("xp", "np", "numpy"):
+            return True
+        if self.model is not None and self.func is not None:
+            return head in self.model.xp_names(self.func)
+        return False
+
     def sym(self, name):
         return T.sym(name, real=name in self.real)
 
@@ -221,11 +229,13 @@ class VN:
                 if r is not None:
                     return r
             return self.sym(k)
-        if k in ("np.pi", "xp.pi", "math.pi", "numpy.pi"):
+        if k is not None and "." in k and self.is_xp(k.split(".")[0]) and k.split(".")[0] not in st.env:
+            k = "np." + k.split(".", 1)[1]  # one spelling for attributes of the array module
+        if k in ("np.pi", "math.pi"):
             return T.sym("pi", real=True)
-        if k in ("np.inf", "xp.inf", "math.inf", "numpy.inf"):
+        if k in ("np.inf", "math.inf"):
             return T.sym("inf", real=True)
-        if k is not None and k.split(".")[0] in ("np", "xp", "numpy", "backend", "sp", "util", "math"):
+        if k is not None and k.split(".")[0] in ("np", "backend", "sp", "util", "math"):
             return T.sym(k, real=True)
         base = self.ev(e.value, st)
         if isinstance(base, Obj):
@@ -765,7 +775,7 @@ class VN:
         if kbase in ("np", "xp", "numpy", "math", "backend", "util", "sp", "signal", "pywt", "thresh", "fourier",
                      "interp", "conv", "block", "wavelet", "linop", "prox", "nb", "time", "warnings"):
             return None
-        if kbase is not None and kbase.split(".")[0] in ("np", "xp", "numpy", "sp"):
+        if kbase is not None and (kbase.split(".")[0] in ("np", "xp", "numpy", "sp") or self.is_xp(kbase.split(".")[0])):
             return None
         if attr in ("copy", "item", "squeeze", "tolist", "get") and not e.args and not kw:
             return self.ev(f.value, st)
